@@ -621,17 +621,23 @@ Proof.
     constructor; auto. reflexivity. apply IH. discriminate.
 Qed.
 
+Lemma sepjoin_cons2 sep a b l : sepjoin sep (a :: b :: l) = a ++ sep ++ sepjoin sep (b :: l).
+Proof. reflexivity. Qed.
+
 Lemma members_print (pr : tv -> list Z) sp w2 (m : list (list Z * tv)) :
   m <> [] -> Forall (fun kv => forallb is_unit (fst kv) = true /\ GValue (pr (snd kv)) (snd kv)) m ->
   WS sp -> WS w2 ->
   GMembers (sepjoin (44 :: w2) (map (fun kv => quote (fst kv) ++ 58 :: sp ++ pr (snd kv)) m)) m.
 Proof.
-  intros Hne Hall Hsp Hw. induction Hall as [|[k x] m [Hk Hx] Hm IH]; [congruence|].
-  cbn [map sepjoin fst snd] in *. destruct m as [|y m].
-  - cbn [map]. unfold quote. norm.
+  intros Hne Hall Hsp Hw. set (F := fun kv : list Z * tv => quote (fst kv) ++ 58 :: sp ++ pr (snd kv)).
+  induction Hall as [|[k x] m [Hk Hx] Hm IH]; [congruence|].
+  cbn [fst snd] in *. destruct m as [|y m].
+  - change (GMembers (quote k ++ 58 :: sp ++ pr x) [(k, x)]). unfold quote. norm.
     apply (GM1 (quote_body k) k [] sp); auto using quote_body_grammar. reflexivity.
-  - match goal with |- GMembers (_ ++ _ ++ ?R) _ => set (rest := R) end.
-    unfold quote. norm.
+  - change (map F ((k, x) :: y :: m)) with (F (k, x) :: F y :: map F m).
+    rewrite sepjoin_cons2. change (F y :: map F m) with (map F (y :: m)).
+    set (rest := sepjoin (44 :: w2) (map F (y :: m))) in *.
+    change (F (k, x)) with (quote k ++ 58 :: sp ++ pr x). unfold quote. norm.
     apply (GMcons (quote_body k) k [] sp (pr x) x [] w2 rest (y :: m));
       auto using quote_body_grammar; try reflexivity.
     apply IH. discriminate.
@@ -678,14 +684,14 @@ Proof.
     assert (Hind' : WS (ind ++ gap)) by now apply WS_app.
     assert (Hall : Forall (fun kv => forallb is_unit (fst kv) = true /\
                                      GValue (printg gap (ind ++ gap) (snd kv)) (snd kv)) (x :: m)).
-    { rewrite Forall_forall in *. intros kv Hkv. destruct (Hwf kv Hkv). split; auto. apply IH; auto. }
+    { rewrite Forall_forall in *. intros kv Hkv. destruct (Hwf kv Hkv). split; [assumption | apply IH; auto]. }
     cbn [printg]. destruct (is_nil gap) eqn:Eg.
     + apply (GObj [] _ (x :: m) []); try reflexivity.
       apply (members_print (printg gap (ind ++ gap)) [] []); auto; try reflexivity. discriminate.
     + apply (GObj (10 :: ind ++ gap) _ (x :: m) (10 :: ind)).
       * apply WS_cons; auto.
       * apply (members_print (printg gap (ind ++ gap)) [32] (10 :: ind ++ gap)); auto;
-          try reflexivity; try discriminate. apply WS_cons; auto.
+          try reflexivity; try discriminate; try (apply WS_cons; auto).
       * apply WS_cons; auto.
 Qed.
 
@@ -701,6 +707,3 @@ Qed.
 Corollary parse_print : forall v, wf v -> parse (print v) = Some v.
 Proof. intros; now apply parse_printg. Qed.
 
-(* what a text denotes survives re-printing *)
-Corollary reprint : forall t v, JSONText t v -> wf v /\ parse (print v) = Some v.
-Abort.
